@@ -82,5 +82,7 @@ func (g *Global) IsBlockedHost(host string, qt uint16) (blocked bool) {
 
 // IsBlockedIP implements the [Interface] interface for *Global.
 func (g *Global) IsBlockedIP(ip netip.Addr) (blocked bool) {
-	return g.blockedNets.Contains(ip)
+	// Remove the IPv6 zone, since [netip.Prefix.Contains] never matches an
+	// address that has one.
+	return g.blockedNets.Contains(ip.WithZone(""))
 }
